@@ -1,7 +1,8 @@
 """C17 — Persistent parameters: crash-atomic, exact round trip, retried after failure.
 
 Runs real `PersistentMixin` modules on a fault-injecting file layer (`FaultFS`, installed by assigning
-`frappy.persistent.open` / `frappy.persistent.os` from outside).  The code gets Python's own buffered text file; what is
+`frappy.persistent.open` / `frappy.persistent.os` from outside, and - while a bench is alive - as `builtins.open`, `io.open`,
+`os.rename/replace/remove/unlink`, so that pathlib, shutil etc. go through it, too).  The code gets Python's own buffered text file; what is
 logged, may fail and is followed by a snapshot of the directory (read through an independent descriptor) are the
 operations that reach the operating system: open, every write of the buffered writer on the raw file, its close,
 os.rename, os.remove.  The Lean side (model `Small/Persist`, monitors `Spec/C17`) compares and judges.  Nothing about the
@@ -1277,6 +1278,12 @@ def check_case(ctx, res, spec, case, quick_crash=3, kind='history'):
             reqs.append({'p': 'C17', 'k': 'judge_snapshots', 'old': hexo(rec['pre'][0]), 'new': new.hex(),
                          'snaps': [hexo(c) for _, c in rec.get('instr', [])]})
             tags.append(('instr', ('step', i)))
+        elif len(rec.get('instr', [])) > 1:
+            # no operation was seen by the file layer, and yet the file changed while code of persistent.py was running
+            reqs.append({'p': 'C17', 'k': 'judge_snapshots', 'old': hexo(rec['pre'][0]), 'new': new_bytes(rec['data']).hex(),
+                         'snaps': [hexo(c) for _, c in rec['instr']]})
+            tags.append(('instr', ('step', i)))
+            res.count('instr.change-without-logged-operation')
             reqs.append({'p': 'C17', 'k': 'judge_litter', 'target': TARGET, 'listing': litter_listing(rec)})
             tags.append(('litter', ('step', i)))
     # ---- fork trials
